@@ -7,7 +7,7 @@
   listings, all log-file configurations and both run modes.  `Dir` is the explicit file-system
   state: names *and* contents, so `dir = d` is "byte for byte".
 -/
-import ASV.Proofs.Names
+import ASV.Proofs.Run
 namespace ASV.C20
 open ASV ASV.WriteSafety
 
@@ -363,49 +363,8 @@ theorem json_before_annotation (p : PipeIn) (wf : p.prep.WF = true)
         have := hpre _ (fun ev hev => Or.inl (convertRecords_trace 0 _ _ ev hev)) _ hmem
         simp at this
 
-theorem pipeline_meets_spec (p : PipeIn) (wf : p.prep.WF = true) : specPipeline p (runPipeline p) = true := by
-  unfold specPipeline
-  cases ha : specAccepts p.prep with
-  | false => simp [pipeline_refused p wf ha, refusedUntouched]
-  | true =>
-    cases hf : p.results.hasFault with
-    | true =>
-      obtain ⟨e, he⟩ := pipeline_fault p wf ha hf
-      obtain ⟨_, _, hw⟩ := writeToFile_fault p.results (.path p.jsonName) (preparedDir p.prep) hf
-      have hall := pipeline_prefix_events p wf ha _ hw
-      rw [he]
-      have hA : Ev.annotated ∉ (prepareOutputDir p.prep).trace ++ Ev.prepared ::
-          (writeToFile p.results (.path p.jsonName) (preparedDir p.prep)).trace := fun h => (hall _ h).1 rfl
-      have hO : Ev.outputsWritten ∉ (prepareOutputDir p.prep).trace ++ Ev.prepared ::
-          (writeToFile p.results (.path p.jsonName) (preparedDir p.prep)).trace := fun h => (hall _ h).2.1 rfl
-      have hW : ((prepareOutputDir p.prep).trace ++ Ev.prepared ::
-          (writeToFile p.results (.path p.jsonName) (preparedDir p.prep)).trace).any
-            (fun e => e == Ev.openW p.jsonName || e == Ev.write p.jsonName) = false := by
-        rw [List.any_eq_false]
-        intro x hx
-        have := hall x hx
-        simp [this.2.2.1 p.jsonName, this.2.2.2 p.jsonName]
-      simp [hA, hO, hW]
-    | false =>
-      rw [pipeline_clean p wf ha hf]
-      have hall := pipeline_prefix_events p wf ha _
-        (fun ev hev => Or.inl (convertRecords_trace 0 p.results.records p.results.results ev hev))
-      have hq : ∀ ev ∈ (prepareOutputDir p.prep).trace ++ Ev.prepared ::
-          (convertRecords 0 p.results.records p.results.results).trace,
-          (fun e : Ev => e != Ev.openW p.jsonName) ev = true := by
-        intro ev hev
-        simpa using (hall ev hev).2.2.1 p.jsonName
-      have hassoc : (prepareOutputDir p.prep).trace ++
-            Ev.prepared :: (convertRecords 0 p.results.records p.results.results).trace ++
-            [Ev.openW p.jsonName, Ev.write p.jsonName, Ev.annotated, Ev.outputsWritten] =
-          ((prepareOutputDir p.prep).trace ++
-            Ev.prepared :: (convertRecords 0 p.results.records p.results.results).trace) ++
-            [Ev.openW p.jsonName, Ev.write p.jsonName, Ev.annotated, Ev.outputsWritten] := by
-        simp
-      rw [hassoc]
-      simp only [Bool.not_true, Bool.false_eq_true, if_false, Option.isNone_none, decide_true, Bool.true_and]
-      rw [dropWhile_prefix _ _ _ hq]
-      simp
+theorem pipeline_meets_spec (p : PipeIn) (wf : p.prep.WF = true) : specPipeline p (runPipeline p) = true :=
+  pipeline_meets_spec' p wf
 
 /-! ## results that come back from `--reuse-results` -/
 
@@ -463,6 +422,53 @@ theorem run_tail_meets_spec (r : RunIn) (wf : (effective r.call).1.WF = true) :
     specPipeline r.toPipe (runTail r) = true :=
   pipeline_meets_spec r.toPipe wf
 
+/-! ## `run_antismash` as a whole: the log file is created before the directory is looked at -/
+
+/-- the entry that logging itself creates (or appends to) inside the output directory is exactly the
+    one the emptiness test exempts as "the log file" -/
+theorem own_log_of_the_run_is_exempt (p : PrepIn) (wf : p.WF = true) (m : String) (h : logPlace p = .entry m)
+    (e : Entry) (he : e.name = m) : allowed (afterLogging p) e = true := by
+  obtain ⟨hcwd, hname, _⟩ := wf_unpack p wf
+  have := isLogFile_of_logPlace p m h hcwd hname e he
+  simp only [allowed, Bool.or_eq_true]
+  exact Or.inr this
+
+/-- so a fresh run into a directory that does not exist yet, logging into that directory, is not
+    stopped by its own log file -/
+theorem new_directory_with_own_log_accepted (p : PrepIn) (wf : p.WF = true) (m : String)
+    (h : logPlace p = .entry m) (ht : p.target = .absent) : specAccepts (afterLogging p) = true := by
+  have hallow := own_log_of_the_run_is_exempt p wf m h ⟨m, false, [logText]⟩ rfl
+  have hallow' : allowed (afterLogging p) ⟨m, false, [logText]⟩ = true := hallow
+  simp only [specAccepts, afterLogging, h, ht, setupLogging, List.all_cons, List.all_nil, Bool.and_true,
+    Bool.or_eq_true]
+  exact Or.inr (by simpa [afterLogging, h, ht, setupLogging] using hallow')
+
+/-- what "leaving that directory's contents untouched" means when the log file lives inside it:
+    logging's set-up keeps every other entry of an existing directory as it is -/
+theorem logging_keeps_everything_else (place : LogPlace) (es : Dir) :
+    ∃ es', (setupLogging place (.dir es)).1 = .dir es' ∧
+      ∀ e ∈ es, (∀ m, place = .entry m → e.name ≠ m) → e ∈ es' :=
+  setupLogging_keeps place es
+
+/-- the whole of `run_antismash` meets the executable spec: after logging's own effects — the same
+    whether the run is accepted or refused — it is the run of `pipeline_meets_spec` on the directory
+    logging left, and a refusal is additionally logged -/
+theorem run_antismash_meets_spec (r : RunIn) (wf : (effective r.call).1.WF = true) :
+    specRun r (runAntismash r) = true :=
+  run_meets_spec r wf
+
+/-- a refused `run_antismash`: besides the log set-up and the logged message nothing is attempted, and
+    the directory is exactly what logging left -/
+theorem refused_run_touches_only_its_log (r : RunIn) (wf : (effective r.call).1.WF = true)
+    (h : specAccepts (afterLogging (effective r.call).1) = false) :
+    runAntismash r =
+      ⟨(setupLogging (logPlace (effective r.call).1) (effective r.call).1.target).2 ++ [.logErr],
+       some inputError, (afterLogging (effective r.call).1).target⟩ := by
+  rw [runAntismash_eq]
+  have := pipeline_refused ⟨afterLogging (effective r.call).1, r.results, r.jsonName⟩
+    (afterLogging_wf _ wf) h
+  simp [this]
+
 /-! ## non-vacuity: concrete runs on which the interesting branches fire -/
 
 /-- two records, two modules each; the existing target holds old bytes, a bystander file exists -/
@@ -514,6 +520,18 @@ example : (RunIn.jsonName ⟨exCall "/old/run1/base.json" "/old/run1", default, 
 example : (effective (exCall "/data/genome.gbk" "")).1.name = "/home/u/genome" := by decide
 example : (RunIn.jsonName ⟨exCall "/data/genome.gbk" "out" "mine", default, "x.gbk"⟩) = "mine.json" := by decide
 example : (RunIn.jsonName ⟨exCall "/data/.hidden" "out", default, "x"⟩) = ".hidden.json" := by decide
+/-- `run_antismash` with the log inside a new directory: created, logged to, accepted; with the log
+    one level further down the directory logging created makes the run refuse its own new directory -/
+def exRun (target : Target) (logfile : String) : RunIn :=
+  ⟨⟨target, "/data/g.gbk", "/w", "/w/out", ⟨"", "/w/out", logfile⟩⟩, exClean, "g.gbk"⟩
+example : logPlace (effective (exRun .absent "/w/out/run.log").call).1 = .entry "run.log" := by decide
+example : logPlace (effective (exRun .absent "/w/out/logs/x/run.log").call).1 = .below "logs" := by decide
+example : (runAntismash (exRun .absent "/w/out/run.log")).err = none := by decide
+example : runAntismash (exRun .absent "/w/out/logs/run.log") =
+    ⟨[.mkdir, .mkdirSub "logs", .logErr], some "AntismashInputError", .dir [⟨"logs", true, []⟩]⟩ := by decide
+example : runAntismash (exRun (.dir [⟨"run", false, [.raw "x"]⟩]) "/w/out/run.log") =
+    ⟨[.logErr], some "AntismashInputError", .dir [⟨"run", false, [.raw "x"]⟩, ⟨"run.log", false, [logText]⟩]⟩ := by
+  decide
 /-- orjson's integer range is a fault boundary -/
 example : (PyVal.int 18446744073709551615).faulty = false ∧ (PyVal.int 18446744073709551616).faulty = true := by
   decide
